@@ -1,16 +1,24 @@
 """C05 — LRU eviction is transparent and bounded."""
 from checks_path import *  # noqa
-from store_common import run_store
+from store_common import replay_store, run_store
 from seq_common import run_seq
 
 PROPERTY = 'C05'
 PROPS = ['SalsaVerif.Props.C05', 'SalsaVerif.Props.C05Engine']
 EXPLANATION = ('Theorems about the Lean model of the LRU policy (no duplicates, bound after eviction, the evicted ones are exactly the least '
                'recently used, capacity 0 disables, membership = used since enabled and not evicted) for every op sequence; the model is '
-               'compared with the real `Lru` (salsa::plumbing::function::Lru) line by line. Transparency (same results with and without '
-               'eviction, capacity changes, explicit eviction) is checked by the reference interpreter on generated programs with lru '
-               'functions and lrucap/evict ops.')
-ASSUMPTIONS = ['engine-level bound (retained values per function) is checked by the oracle, the engine-level theorems live in Props/C05Engine when stage S3 is complete']
+               'compared with the real `Lru` (salsa::plumbing::function::Lru) line by line. Engine level (model `Core3`, Props/C05Engine): '
+               'TRANSPARENCY is a theorem — for every well-formed program (lru kinds included) and EVERY history, the answers with `lruCap` / '
+               '`evict` operations equal the answers with those operations erased, also with different declared capacities '
+               '(`c05_transparent`, `c05_transparent_cap`), both sides being the from-scratch values (`c05_sound`, stage S3b invariant `InvE` '
+               'in which any tracked value may vanish at any time); eviction keeps edges and stamps and never happens inside '
+               'maybe_changed_after (`c05_keeps_edges`, `c05_no_exec_in_mca`); BOUND: every evictable cached value is in the LRU set, hence at '
+               'most `capacity` values stay cached after a revision bump, for histories that never set the capacity to 0 (`c05_cover`, '
+               '`c05_bound`; holds only with the two repairs recorded in known_findings.txt). Core3 is tied to salsa by exact comparison of '
+               'values and events on generated programs with lru functions and lrucap / evict ops; the bound is also monitored on real '
+               'salsa through memory_usage().')
+ASSUMPTIONS = ['c05_bound excludes histories with capacity-0 phases (values cached while disabled and kept afterwards need a ghost set); the '
+               'monitor covers them', 'eviction of values reachable through accumulated_map / specify paths is covered by the monitor on the full profile, not by Core3']
 
 def ties(ctx):
     n = 1500 if ctx.tier == 'quick' else 60000
@@ -20,6 +28,12 @@ def ties(ctx):
 def search(ctx, reason):
     t = run_seq(ctx, 'core3', 200000, seed_offset=92, tag='search-core3')
     for f in t.failures:
-        if f.kind == 'oracle':
+        if f.kind == 'oracle' and f.key not in listed_keys():
             return f
     return None
+
+def replay(ctx, path):
+    if '/store-' in path or path.endswith('.store.ops'):
+        return replay_store(ctx, path)
+    from seq_common import replay_seq
+    return replay_seq(ctx, path)
